@@ -41,7 +41,9 @@ def one(pid, k, keep):
         rcs, outs = sh("/venv/bin/python -m pytest -q -p no:cacheprovider --timeout=900 --continue-on-collection-errors 2>&1 | tail -3", cwd=wt, timeout=1200)
         m = re.search(r"(\d+) failed, (\d+) passed", outs)
         suite = m.group(0) if m else outs.strip()[-80:]
-        same = (o0.strip() == o1.strip())
+        def stable(o):  # timing lines a demo prints to stderr are not part of its result
+            return "\n".join(l for l in o.strip().splitlines() if not re.search(r"\[cpu [0-9.]+s\]", l))
+        same = (stable(o0) == stable(o1))
         confirmed = rc0 == 0 and rc1 == 0 and same and suite == "12 failed, 187 passed"
         procs = [(p, subprocess.Popen([os.path.join(VERIF, "check"), p, "--repo", wt, "--no-evidence"], cwd=VERIF, stdout=subprocess.PIPE, stderr=subprocess.STDOUT, text=True))
                  for p in ["C%02d" % i for i in range(1, 21)]]
